@@ -600,6 +600,40 @@ def default_row_labels(ctx, rule):
         if isinstance(x, ast.Subscript) and isinstance(x.value, ast.Name) and x.value.id == acc and \
                 isinstance(x.slice, ast.Slice) and x.slice.step is not None and unparse(x.slice.step) == '-1':
             reversals += 1
+    # bijective base 26 (there is no zero letter): the digit AND the carry are taken from the same decremented number
+    # (`n -= 1; d = n % 26; n //= 26` or `n, d = divmod(n - 1, 26)`); a digit from n - 1 with a carry from n labels row
+    # 26 'AZ' instead of 'Z'
+    decremented = set()     # names decremented by a statement of the loop body
+    mods, divs = [], []
+    for st in lp.body:
+        if isinstance(st, ast.AugAssign) and isinstance(st.op, ast.Sub) and isinstance(st.target, ast.Name) and unparse(st.value) == '1':
+            decremented.add(st.target.id)
+
+    def norm(e):
+        t = unparse(e).replace(' ', '')
+        if isinstance(e, ast.Name) and e.id in decremented:
+            return f"({e.id}-1)"
+        if t.startswith('(') and t.endswith(')'):
+            return t
+        return f"({t})" if isinstance(e, ast.BinOp) else t
+    for x in ast.walk(lp):
+        if isinstance(x, ast.BinOp) and unparse(x.right) == '26':
+            if isinstance(x.op, ast.Mod):
+                mods.append(norm(x.left))
+            elif isinstance(x.op, ast.FloorDiv):
+                divs.append(norm(x.left))
+        if isinstance(x, ast.AugAssign) and isinstance(x.op, ast.FloorDiv) and unparse(x.value) == '26':
+            divs.append(norm(x.target) if not (isinstance(x.target, ast.Name) and x.target.id in decremented)
+                        else f"({x.target.id}-1)")
+        if isinstance(x, ast.Call) and getattr(x.func, 'id', '') == 'divmod' and len(x.args) == 2 and unparse(x.args[1]) == '26':
+            mods.append(norm(x.args[0]))
+            divs.append(norm(x.args[0]))
+    if mods and divs:
+        same = set(mods) == set(divs) and all('-1' in m_ for m_ in mods)
+        ctx.ob(rule, pi, lp.lineno, 'digit and carry of a default row label come from the same decremented number', same,
+               fact=f"digit from {sorted(set(mods))}, carry from {sorted(set(divs))}",
+               why="bijective base 26 needs n - 1 for both: otherwise multiples of 26 get a wrong label ('AZ' for row 26)",
+               key='row label digit and carry')
     ok = (order == 'lsd' and reversals % 2 == 1) or (order == 'msd' and reversals % 2 == 0)
     ctx.ob(rule, pi, lp.lineno, "default row labels are written most significant letter first ('AA', 'AB', ...)", ok,
            fact=f"letters are {'appended (least significant first)' if order == 'lsd' else 'prepended'} to `{acc}`, "
